@@ -4,7 +4,7 @@ the forms documented by sievelib's factory module and test suite."""
 from hypothesis import strategies as st
 
 HOSTILE = ['"', "\\", ",", "[", "]", "(", ")", "{", "}", ";", "#", " ", "\n", "\r\n", "é", "€", "😀", "a", "b", "Z", "0",
-           "@", ".", "-", ":", "$", "*", "?", "/*", "text:", "'"]
+           "@", ".", "-", ":", "$", "*", "?", "/*", "text:", "'", "text:\nx\n.", "\n."]
 MILD = [",", " ", "[", "]", "é", "€", "a", "b", "Z", "0", "@", ".", "-", "(", ")", "😀", ";", "{", "}"]
 BENIGN = ["a", "b", "c", "X", "Y", "0", "1", "-", "_", ".", "@"]
 
@@ -124,6 +124,9 @@ def action(draw, alphabet, kinds=None, lists_ok=True, tags_with_values=True):
 @st.composite
 def definition(draw, alphabet, cond_kinds=None, act_kinds=None, lists_ok=True, tags_with_values=True, min_actions=0):
     conds = draw(st.lists(condition(alphabet, cond_kinds, lists_ok), min_size=1, max_size=4))
+    if draw(st.integers(0, 6)) == 0:
+        # the same condition twice (the last one equal to an earlier one)
+        conds = conds + [conds[draw(st.integers(0, len(conds) - 1))]]
     acts = draw(st.lists(action(alphabet, act_kinds, lists_ok, tags_with_values), min_size=min_actions, max_size=3))
     mt = draw(st.sampled_from(["anyof", "allof"]))
     return {"conditions": conds, "actions": acts, "matchtype": mt}
